@@ -662,8 +662,12 @@ func (a *Account) Save() error {
 
 	// save code
 	if a.codeIsDirty {
-		if err := a.db.SetContractCode(a.data.CodeHash, a.code); err != nil {
-			return err
+		// the code may be gone again (self-destruct after the deployment, or the deployment was reverted): there is
+		// nothing to store then, and the store refuses an empty value
+		if len(a.code) > 0 {
+			if err := a.db.SetContractCode(a.data.CodeHash, a.code); err != nil {
+				return err
+			}
 		}
 		a.codeIsDirty = false
 	}
